@@ -49,9 +49,13 @@ def _all_parts(mod, prop, tier):
     if pp is not None:
         parts.append(pp)
     from mc.props import threads
-    tp = threads.part(prop, tier)
+    tp = threads.part(prop, tier) if not os.environ.get("VERIF_CHILD") else None
     if tp is not None:
         parts.append(tp)
+    from mc.props import optimised
+    op = optimised.part(prop)
+    if op is not None:
+        parts.append(op)
     from mc.props import subclass
     sp = subclass.part(prop)
     if sp is not None:
